@@ -20,9 +20,11 @@ import (
 	"time"
 
 	"dvh/internal/corekit"
+	"dvh/internal/crashstore"
 	"dvh/internal/memstore"
 	"dvh/internal/tr"
 
+	context2 "github.com/oneconcern/datamon/pkg/context"
 	"github.com/oneconcern/datamon/pkg/core"
 	"github.com/oneconcern/datamon/pkg/model"
 	"github.com/segmentio/ksuid"
@@ -49,6 +51,8 @@ type c07Scn struct {
 	repos []string
 	// focus objects for the list operations
 	dias map[string][]string // repo -> diamond ids
+	// alt, when set, replaces the stores of the next listings (fault injection)
+	alt *context2.Stores
 }
 
 func c07Name(r *tr.Rng, alphabet string, maxLen int) string {
@@ -346,6 +350,9 @@ func c07Call(f func() ([]c07Ret, error)) (out []c07Ret, class string) {
 
 func c07List(s *c07Scn, kind, variant, repo, did string, ps, cl int) ([]c07Ret, string) {
 	st := s.env.Stores
+	if s.alt != nil {
+		st = *s.alt
+	}
 	opts := []core.Option{core.BatchSize(ps), core.ConcurrentList(cl)}
 	tsec := func(t time.Time) string { return strconv.FormatInt(int64(t.Sub(c07Base)), 10) }
 	return c07Call(func() ([]c07Ret, error) {
@@ -576,6 +583,62 @@ func c07Case(c *ctx, descr string, z c07Sizes, realAPI, full bool) {
 						c07Op(c, s, "splits", variant, rp, did, ps, cl)
 					}
 				}
+			}
+		}
+	}
+	// the same listings while ONE descriptor read fails transiently, with small pages: the listing
+	// ends (error, or exactly the fault-free result) — it never hangs, never returns a part
+	if s.nkeys <= 300 {
+		for _, kind := range []string{"diamonds", "splits", "bundles", "labels"} {
+			did := ""
+			if kind == "splits" {
+				if len(s.dias[repo]) == 0 {
+					continue
+				}
+				did = s.dias[repo][0]
+			}
+			for _, variant := range []string{"list", "apply"} {
+				ps := 1 + r.Intn(2)
+				ref, rclass := c07List(s, kind, variant, repo, did, ps, 2)
+				if rclass != "ok" || len(ref) < 2 {
+					continue
+				}
+				g := &crashstore.Group{FailReadOp: "get", FailReadAt: 1 + r.Intn(len(ref))}
+				switch kind {
+				case "diamonds":
+					g.FailReadKey = "/diamond-"
+				case "splits":
+					g.FailReadKey = "/split-"
+				case "bundles":
+					g.FailReadKey = "/bundle.yaml"
+				default:
+					g.FailReadKey = "/label.yaml"
+				}
+				e := s.env
+				alt := corekit.WithStores(e.Wal, e.ReadLog, e.Blob, crashstore.Wrap(g, "meta", e.Meta), crashstore.Wrap(g, "vmeta", e.VMeta))
+				s.alt = &alt
+				out, class := c07List(s, kind, variant, repo, did, ps, 2)
+				s.alt = nil
+				if g.Reads() < g.FailReadAt {
+					continue
+				}
+				got := class
+				if class == "ok" {
+					got = "same"
+					if len(out) != len(ref) {
+						got = fmt.Sprintf("differ:%d-instead-of-%d", len(out), len(ref))
+					} else {
+						for i := range out {
+							if out[i].key != ref[i].key {
+								got = "differ:order-or-content"
+							}
+						}
+					}
+				} else if class != "hang" {
+					got = "err"
+				}
+				c.w.Op(fmt.Sprintf("lsf kind=%s v=%s ps=%d at=%d got=%s", kind, variant, ps, g.FailReadAt, got), "sound")
+				c.w.Count("listing-with-read-fault=" + kind)
 			}
 		}
 	}
